@@ -11,6 +11,8 @@ namespace NV.C19
 structure BSys.Cnt (s : BSys) : Prop where
   enq : s.q.enqCount = s.accepted.length
   out : s.q.deqCount + s.q.dropCount + s.clearedN = s.gone.length
+  drop : s.q.dropCount = s.dropped.length
+  deq : s.q.deqCount = s.deqd.length
 
 theorem BSys.cnt_step (s : BSys) (a : BAct) (h : s.Good) (hc : s.Cnt) : (s.step a).Cnt := by
   cases a with
@@ -22,7 +24,7 @@ theorem BSys.cnt_step (s : BSys) (a : BAct) (h : s.Good) (hc : s.Cnt) : (s.step 
       simp only
       split
       · split
-        · exact ⟨hc.enq, hc.out⟩
+        · exact ⟨hc.enq, hc.out, hc.drop, hc.deq⟩
         · exact hc
       · 
         cases htodo : w.todo with
@@ -35,33 +37,39 @@ theorem BSys.cnt_step (s : BSys) (a : BAct) (h : s.Good) (hc : s.Cnt) : (s.step 
           obtain ⟨q', r⟩ := res
           simp only at hspec hcnt
           cases hspec with
-          | badSize _ he => subst he; exact ⟨hc.enq, hc.out⟩
-          | full _ _ _ _ he => subst he; exact ⟨hc.enq, hc.out⟩
-          | blocked _ _ _ _ he => subst he; exact ⟨hc.enq, hc.out⟩
+          | badSize _ he => subst he; exact ⟨hc.enq, hc.out, hc.drop, hc.deq⟩
+          | full _ _ _ _ he => subst he; exact ⟨hc.enq, hc.out, hc.drop, hc.deq⟩
+          | blocked _ _ _ _ he => subst he; exact ⟨hc.enq, hc.out, hc.drop, hc.deq⟩
           | room hs hlt _ =>
             obtain ⟨c1, c2, c3⟩ := hcnt rfl
             have hnf : ¬ (s.q.count ≥ s.q.cap) := by omega
             have hwd : (decide (m.size ≠ 0 ∧ m.size ≤ s.q.maxMsg ∧ s.q.count ≥ s.q.cap) && s.q.dropOldest) = false := by
               simp [hnf]
             simp only [hnf, if_false, Nat.add_zero] at c3
-            refine ⟨?_, ?_⟩
+            refine ⟨?_, ?_, ?_, ?_⟩
             · simp only [List.length_append, List.length_cons, List.length_nil]
               rw [c1, hc.enq]
             · simp only [hwd, Bool.false_eq_true, if_false]
               rw [c2, c3]; exact hc.out
+            · simp only [hwd, Bool.false_eq_true, if_false]
+              rw [c3]; exact hc.drop
+            · rw [c2]; exact hc.deq
           | dropOldest hs hfull hdrop _ _ =>
             obtain ⟨c1, c2, c3⟩ := hcnt rfl
             have hwd : (decide (m.size ≠ 0 ∧ m.size ≤ s.q.maxMsg ∧ s.q.count ≥ s.q.cap) && s.q.dropOldest) = true := by
               have h1 : m.size ≠ 0 ∧ m.size ≤ s.q.maxMsg := by omega
               simp [h1, hfull, hdrop]
             simp only [hfull, if_true] at c3
-            refine ⟨?_, ?_⟩
+            refine ⟨?_, ?_, ?_, ?_⟩
             · simp only [List.length_append, List.length_cons, List.length_nil]
               rw [c1, hc.enq]
             · simp only [hwd, if_true, List.length_append, List.length_cons, List.length_nil]
               rw [c2, c3]
               have := hc.out
               omega
+            · simp only [hwd, if_true, List.length_append, List.length_cons, List.length_nil]
+              rw [c3, hc.drop]
+            · rw [c2]; exact hc.deq
   | deq buf =>
     obtain ⟨_, _, _, hspec⟩ := Q.dequeue_spec s.q h.inv buf
     obtain ⟨_, hcnt⟩ := Q.dequeue_fields s.q buf
@@ -70,18 +78,20 @@ theorem BSys.cnt_step (s : BSys) (a : BAct) (h : s.Good) (hc : s.Cnt) : (s.step 
     obtain ⟨q', r⟩ := res
     simp only at hspec hcnt
     cases hspec with
-    | empty _ he => subst he; exact ⟨hc.enq, hc.out⟩
-    | short _ _ _ _ he => subst he; exact ⟨hc.enq, hc.out⟩
+    | empty _ he => subst he; exact ⟨hc.enq, hc.out, hc.drop, hc.deq⟩
+    | short _ _ _ _ he => subst he; exact ⟨hc.enq, hc.out, hc.drop, hc.deq⟩
     | took m rest _ _ _ =>
       obtain ⟨c1, c2, c3⟩ := hcnt m rfl
-      refine ⟨by rw [c1]; exact hc.enq, ?_⟩
-      simp only [List.length_append, List.length_cons, List.length_nil]
-      rw [c2, c3]
-      have := hc.out
-      omega
+      refine ⟨by rw [c1]; exact hc.enq, ?_, by rw [c3]; exact hc.drop, ?_⟩
+      · simp only [List.length_append, List.length_cons, List.length_nil]
+        rw [c2, c3]
+        have := hc.out
+        omega
+      · simp only [List.length_append, List.length_cons, List.length_nil]
+        rw [c2, hc.deq]
   | clear =>
     simp only [BSys.step]
-    refine ⟨hc.enq, ?_⟩
+    refine ⟨hc.enq, ?_, hc.drop, hc.deq⟩
     simp only [List.length_append, Q.contents_length]
     have := hc.out
     simp only [Q.clear]
@@ -89,13 +99,15 @@ theorem BSys.cnt_step (s : BSys) (a : BAct) (h : s.Good) (hc : s.Cnt) : (s.step 
 
 /-- **The statistics account for every message, under any concurrency.**  Any number of writers (blocked or not), any
 flags (DROP_OLDEST drops included), dequeues and clears at any moment, every interleaving: `enqueue_count` is the number
-of accepted messages, and `dequeue_count + dropped_count` plus the messages thrown away by `clear` is the number of
-messages that left the queue; with `blocked_writers_fifo_exactly_once`: accepted = gone + still queued. -/
+of accepted messages, `dropped_count` is EXACTLY the number of messages DROP_OLDEST overwrote and `dequeue_count` exactly
+the number handed to the consumer (never a drop counted on one path only, never a dequeue counted twice), and together
+with the messages thrown away by `clear` they are the messages that left the queue; accepted = gone + still queued. -/
 theorem blocked_writers_counters (cs : Bool) (cap mm fl : Nat) (q : Q) (hq : Q.create cap mm fl = some q)
     (progs : List (List Msg)) (acts : List BAct) :
     let s := (BSys.init cs q progs).run acts
     s.q.enqCount = s.accepted.length ∧ s.q.deqCount + s.q.dropCount + s.clearedN = s.gone.length ∧
-    s.accepted.length = s.gone.length + s.q.count := by
+    s.accepted.length = s.gone.length + s.q.count ∧
+    s.q.dropCount = s.dropped.length ∧ s.q.deqCount = s.deqd.length := by
   intro s
   have hs : s = (BSys.init cs q progs).run acts := rfl
   rw [hs]
@@ -111,17 +123,17 @@ theorem blocked_writers_counters (cs : Bool) (cap mm fl : Nat) (q : Q) (hq : Q.c
     split at hq
     · cases hq
     · simpa using hq.symm
-  have hc0 : (BSys.init cs q progs).Cnt := by subst hq0; exact ⟨rfl, rfl⟩
+  have hc0 : (BSys.init cs q progs).Cnt := by subst hq0; exact ⟨rfl, rfl, rfl, rfl⟩
   obtain ⟨hg, hc⟩ := key acts _ (BSys.good_init cs hq progs) hc0
-  refine ⟨hc.enq, hc.out, ?_⟩
+  refine ⟨hc.enq, hc.out, ?_, hc.drop, hc.deq⟩
   have := congrArg List.length hg.fifo
   simp only [List.length_append, Q.contents_length] at this
   omega
 
 -- non-vacuity: DROP_OLDEST|BLOCK_WRITER queue of capacity 1, three pushes (two drops), a clear, a dequeue of nothing
 example :
-    let q : Q := { cap := 1, maxMsg := 8, flags := 3, slots := [⟨0, 0, 0⟩] }
+    let q : Q := { cap := 1, maxMsg := 8, flags := flagDropOldest ||| flagBlockWriter, slots := [⟨0, 0, 0⟩] }
     let s := (BSys.init true q [[⟨1, 1, 8⟩, ⟨1, 2, 8⟩, ⟨1, 3, 8⟩]]).run [.writer 0, .writer 0, .writer 0, .clear, .deq 8]
-    s.q.enqCount = 3 ∧ s.q.dropCount = 2 ∧ s.clearedN = 1 ∧ s.gone.length = 3 := by decide
+    s.q.enqCount = 3 ∧ s.q.dropCount = 2 ∧ s.dropped = [⟨1, 1, 8⟩, ⟨1, 2, 8⟩] ∧ s.clearedN = 1 ∧ s.gone.length = 3 := by decide
 
 end NV.C19
